@@ -264,7 +264,7 @@ def check_series(case):
 @st.composite
 def frame_cases(draw):
     opn = draw(st.sampled_from([o for o in sorted(OPS) if o not in LOGICAL]))  # decisive choices first
-    other = draw(st.sampled_from(['frame', 'frame', 'series', 'same']))
+    other = draw(st.sampled_from(['frame', 'series_T', 'series', 'same', 'frame']))
     ni, nc = draw(st.sampled_from([3, 2, 4, 1, 5])), draw(st.sampled_from([3, 2, 4, 1, 5]))
     ipool = draw(gen.flat_labels(ni, draw(st.sampled_from(['int', 'str']))))
     cpool = draw(gen.flat_labels(nc, draw(st.sampled_from(['str', 'int']))))
@@ -282,6 +282,12 @@ def frame_cases(draw):
         ci = [p for p in draw(st.permutations(list(range(nc)))) if draw(st.booleans())]
         kind = draw(st.sampled_from(['int64', 'float64']))
         b = {'ci': ci, 'values': draw(gen.column(kind, len(ci)))}
+    elif other == 'series_T':
+        # a Series applied along the index through Frame.via_T; its labels are row labels (often all of them, permuted,
+        # so that the aligned frame is as tall as it is wide)
+        ri = [p for p in draw(st.permutations(list(range(ni)))) if not draw(st.booleans()) or draw(st.booleans())]
+        kind = draw(st.sampled_from(['int64', 'float64']))
+        b = {'ri': ri, 'values': draw(gen.column(kind, len(ri)))}
     else:
         b = operand()
     return {'ipool': ipool, 'cpool': cpool, 'a': a, 'b': b, 'other': other, 'op': opn}
@@ -314,6 +320,15 @@ def check_frame(case):
         ib = rows
         cols = list(ca) + [c for c in cb if not any(eq(canon(c), canon(x)) for x in ca)]
         s_al, s_miss = _align(cols, cb, case['b']['values'])
+    elif case['other'] == 'series_T':
+        ib = [case['ipool'][p] for p in case['b']['ri']]
+        sb = sf.Series(case['b']['values'], index=ib)
+        with np.errstate(all='ignore'):
+            r = lib(lambda: fn(fa.via_T, sb))
+        rows = list(ia) + [x for x in ib if not any(eq(canon(x), canon(y)) for y in ia)]
+        cols = list(ca)
+        cb = cols
+        sT_al, sT_miss = _align(rows, ib, case['b']['values'])
     else:
         fb, ib, cb = _frame_of(case, case['b'])
         cols_b = gen.block_columns(case['b']['blocks'])
@@ -329,6 +344,8 @@ def check_frame(case):
         if case['other'] == 'series':
             al_b = np.array([arr_list(s_al)[j]] * len(rows), dtype=s_al.dtype) if len(rows) else np.empty(0, dtype=s_al.dtype)
             miss_b = [s_miss[j]] * len(rows)
+        elif case['other'] == 'series_T':
+            al_b, miss_b = sT_al, sT_miss
         else:
             jb = next((q for q, x in enumerate(cb) if eq(canon(x), canon(c))), None)
             al_b, miss_b = _col_aligned(rows, ib, cols_b[jb] if jb is not None else None)
@@ -354,7 +371,7 @@ def check_frame(case):
             w = arr_list(want)[i]
             if not (eq(g, w) or (is_missing(g) and is_missing(w)) or _close(g, w)):
                 note = ''
-                if case['other'] != 'series' and _consolidated_explains(fn, rows, cols, ia, ca, cols_a, ib, cb, cols_b, j, i, g):
+                if case['other'] not in ('series', 'series_T') and _consolidated_explains(fn, rows, cols, ia, ca, cols_a, ib, cb, cols_b, j, i, g):
                     note = ' [consolidated-dtype-explains]'
                 raise Failure('value', '%s at (%r,%r): got %r expected %r%s' % (case['op'], rr, c, g, w, note))
             if (miss_a[i] or miss_b[i]) and case['op'] in ARITH and not is_missing(g):
